@@ -238,6 +238,14 @@ namespace bloch::compiler {
         // Generics helpers
         std::vector<ClassInfo::TypeParamInfo> m_currentTypeParams;
         bool m_inClassRegistryBuild = false;
+        // 'from' viewed as an instantiation of its ancestor 'owner' (LBox<float> as Box<float>,
+        // IBox as Box<int>), and a member type declared in 'owner' as seen through 'from'.
+        TypeInfo instantiationOf(const TypeInfo& from, const std::string& owner) const;
+        TypeInfo memberTypeIn(const TypeInfo& from, const std::string& owner,
+                              const TypeInfo& memberType) const;
+        std::vector<TypeInfo> memberTypesIn(const TypeInfo& from, const std::string& owner,
+                                            const std::vector<TypeInfo>& memberTypes) const;
+        TypeInfo currentClassType() const;
         TypeInfo substituteTypeParams(const TypeInfo& t,
                                       const std::vector<ClassInfo::TypeParamInfo>& params,
                                       const std::vector<TypeInfo>& args) const;
